@@ -250,6 +250,8 @@ HOSTILE = [
     "None", "123", "-1", "1e999", "[1,2", "__import__('os').getcwd()", "'single'", "True;", "7907*7919", '"a" + "b"', "b'bytes'", "{1, 2}", "1 if True else 2", "lambda: 1", '"""', "'unterminated", "(1,)", ";", '"x";;',
     # a valid step followed by a tail that does not even parse on its own: the shrink-and-retry loop of generate_next_step must drop the tail
     "bot answer other\ndefine", "bot answer other\ndefine flow", "bot answer other\ndefine user", "bot answer other\nbot add detail\ndefine",
+    # ESCAPED control characters (backslash + letter, as a model writes them inside quotes): non-empty as generated, blank once unescaped
+    '"\\n"', '  "\\n"', '"\\n\\n"', '"\\t"', "\\n", '"\\n \\n"', '" \\n"',
 ]
 
 # literal values (accepted by literal_eval) shaped like the markers the Colang 2 state serialiser writes
